@@ -14,6 +14,30 @@ CHECKS = {
  "C04": ("exploration", "runtime monitor: every recorded report and hand-over resolved against the original payload; hand-over sets vs reference model",
          "Every report and every hand-over of every monitored run is checked against the payload (location resolves, quoted value IS the node there, missing really missing, unknown really present ...); per report the set of hand-over locations is compared with the reference model. Faults are placed systematically at every position of valid payloads.",
          "Trusted: monitor kit, reference model of hand-over positions (Appendix A), unique keys in this workload.", "§4 C04"),
+  "C02": ("exploration", "runtime monitor: recorded report multiset of the keep-going run vs reference interpreter; examine events of the instrumented value source",
+         "Every keep-going execution of random multi-fault payloads, of every single and double structural mutation of valid payloads and of the per-field state product is recorded; the multiset of (digest, location) reports held by the returned error must equal the reference interpreter's, Unexpected messages must state the model's facts, and every node the model deserializes must have been examined.",
+         "Trusted: monitor kit and the reference interpreter (Appendix A), itself validated by agreement with the implementation on every fault-free control and by the break experiments.", "§4 C02"),
+ "C06": ("exploration", "runtime monitor: Ok projections and reports of container targets vs reference interpreter over systematic length/position mutations",
+         "For every container shape the projection of the Ok value (order, set/map semantics, None-iff-null) and the reports (arity, key parse) are compared with the reference interpreter over valid payloads of lengths 0..6 and every single structural mutation of them.",
+         "Trusted: ToProj projections of std types (monitor::proj), reference interpreter.", "§4 C06"),
+ "C07": ("exploration", "runtime monitor: sentinel values under every plausible key, Ok projection vs reference interpreter with hand-written / generator-computed effective keys",
+         "Payloads over the union of plausible keys of every field, each carrying its own sentinel, identify the key each field was read from; compared with the reference interpreter whose effective keys never come from the macro.",
+         "Trusted: the hand-written keys of the catalogue and the generator's renaming rules.", "§4 C07"),
+ "C08": ("exploration", "runtime monitor: all 2^n key subsets per struct-like body, reports / custom-function calls / values / examine events vs reference interpreter",
+         "All subsets of keys deleted, crossed with nulling and corrupting another key and with entries named like skipped fields; missing reports, custom missing-field calls, defaults, map and never-examined skipped entries are compared with the reference interpreter.",
+         "Trusted: reference interpreter; instrumented value source for the never-examined claim.", "§4 C08"),
+ "C09": ("exploration", "runtime monitor: UnknownKey reports / custom calls vs reference interpreter + metamorphic invariance under added members",
+         "With deny_unknown_fields the exact reports and custom-function calls are compared with the reference interpreter; without it, adding arbitrary members (near misses, skipped names) to every object must leave value and report multiset unchanged.",
+         "Trusted: reference interpreter for (a); nothing but determinism for (b).", "§4 C09"),
+ "C10": ("exploration", "runtime monitor: every variant name x spelling x tag kind x position, selected variant and reports vs reference interpreter",
+         "For every variant of every enum the tag/string is given in nine spellings, as a non-string of every kind, missing, under a case-flipped key, at three positions, with own / foreign / no fields; the selected variant and the reports are compared with the reference interpreter.",
+         "Trusted: reference interpreter and hand-written effective variant names.", "§4 C10"),
+ "C11": ("exploration", "runtime monitor: call log of instrumented user functions (count, argument, location, order) vs reference interpreter + local trace rules",
+         "Instrumented from/try_from/map/validate functions log every call; the call multiset, foreign reports, hand-over sets and values are compared with the reference interpreter, and model-free trace rules check the exactly-once crossing of field-level error types and that nothing below a container happens after its validate.",
+         "Trusted: instrumented functions mirrored in refmodel::vf.", "§4 C11"),
+ "C15": ("exploration", "runtime monitor: metamorphic comparison of recorded runs under all member permutations (no model)",
+         "Every object of every generated payload is presented in all permutations of its members (<= 5 members, random beyond) through the order-preserving instrumented source; Ok projections and report multisets must be equal.",
+         "Trusted: determinism of deserr; unique keys.", "§4 C15"),
  "C12": ("fault_enumeration", "runtime monitor: catch_unwind around every call of a hostile workload + observed child processes on small stacks at depth 128",
          "Every deserialize call of a hostile workload (all subjects x adversarial payloads x answer scripts x value sources x built-in error types) runs under catch_unwind; a child process runs all subjects on depth-128 nestings on 2 MiB and 8 MiB stacks and its termination status is observed.",
          "Trusted: panic = unwinding panic (panic=abort builds are out of scope); depth limited to 128 as the property states.", "§4 C12"),
